@@ -32,7 +32,7 @@ pub fn cells(tier: Tier) -> Vec<CellPlan> {
             ],
             rounds: if q || clients == 2 { 3 } else { 4 },
             tick_choice: true,
-            env: EvEnv { hold_updates: 3, hold_events: true, reorder: true, drop_unreliable: false, hold_client_events: false, hold_mutations: false, hold_acks: false },
+            env: EvEnv { hold_updates: 3, hold_events: true, reorder: true, drop_unreliable: false, hold_client_events: false, hold_mutations: false, hold_acks: false, update_latency: 0 },
             oracles: EvOracles { c04: true, ..Default::default() },
             closure_rounds: 4,
         };
